@@ -196,7 +196,7 @@ def spelling_case(job):
     out = {"job": list(job), "problems": []}
     try:
         import hashlib
-        sig = "transfer(uint64,address)void"
+        sig = "transfer(uint64,address)void" if order % 2 == 0 else "caf\u00e9(uint64,address)void"
         addr = "WSJHNPJ6YCLX5K4GUMQ4ISPK3ABMS3AL3F6CSVQTCUI5F4I65PWEMCWT3M"
         addr_raw = base64.b32decode(addr + "======")[:32]
         u = lambda n: n.to_bytes(8, "big")
